@@ -474,11 +474,101 @@ def classic_geo(lg, case, seed, n_samples=2):
         return np.array([flat_mf(s, case) - m for s in kl.samples.iterator()]), [bool(x) for x in kl._sample_list._n]
     lin, nlin = _quiet(lambda: go(None))
     geo, ngeo = _quiet(lambda: go(ift.NewtonCG(ic_n)))
-    return {"lin": lin, "geo": geo, "neg_lin": nlin, "neg_geo": ngeo}
+    # a sampling minimiser that hardly iterates: for a linear model the linear sample (and its mirror
+    # image) already IS the solution of the non-linear update, whatever the minimiser does
+    sd, _ = _quiet(lambda: go(ift.SteepestDescent(ift.GradientNormController(iteration_limit=2))))
+    return {"lin": lin, "geo": geo, "geo_weak": sd, "neg_lin": nlin, "neg_geo": ngeo}
 
 
 def rows(a):
     return C.clist([fv(r) for r in a])
+
+
+# --------------------------------------------------------------------------------------------------
+# (6) JAX sampling sharded over several (forced host) devices, in a subprocess
+# --------------------------------------------------------------------------------------------------
+
+SHARD_SCRIPT = r"""
+import json, os, sys
+import numpy as np
+import jax
+jax.config.update("jax_enable_x64", True)
+import jax.numpy as jnp
+from jax import random
+import nifty.re as jft
+from nifty.re import evi
+from harness import lg_common as L
+from harness.props import c18
+jft.logger.setLevel("ERROR")
+case = json.load(open(sys.argv[1]))
+lg = L.LG(case)
+lh, pos = c18.jax_model(lg, case)
+devices = jax.devices()
+out = {"n_devices": len(devices)}
+n_samples = len(devices) // 2
+opt = jft.OptimizeVI(lh, n_total_iterations=2, devices=devices, residual_map="vmap", jit=False)
+cgkw = dict(miniter=6, absdelta=1e-15, maxiter=60)
+kw = dict(n_samples=n_samples, point_estimates=(),
+          draw_linear_kwargs=dict(cg=jft.conjugate_gradient.static_cg, cg_name=None, cg_kwargs=cgkw),
+          nonlinearly_update_kwargs=dict(minimize=jft.optimize._static_newton_cg,
+                                         minimize_kwargs=dict(name=None, xtol=1e-13, cg_kwargs=dict(name=None, miniter=6), maxiter=10)))
+key = random.PRNGKey(int(sys.argv[3]))
+s0, _ = opt.draw_samples(jft.Samples(pos=pos, samples=None, keys=None), key=key, sample_mode="linear_resample", **kw)
+s1, _ = opt.draw_samples(s0, key=random.PRNGKey(int(sys.argv[3]) + 1), sample_mode="nonlinear_update", **kw)
+def res(s):
+    return [c18.flat_vec(jax.tree_util.tree_map(lambda a: a[i], s._samples), case).tolist() for i in range(len(s))]
+out["r0"], out["r1"] = res(s0), res(s1)
+kd = lambda k: np.asarray(jax.random.key_data(k) if hasattr(jax.random, "key_data") else k).tolist()
+out["keys_stored"] = kd(s0.keys)
+out["keys_expected"] = kd(random.split(key, n_samples))
+out["keys_after_update"] = kd(s1.keys)
+single = []
+for k in random.split(key, n_samples):
+    r, _ = evi.draw_linear_residual(lh, pos, k, cg=jft.conjugate_gradient.static_cg, cg_kwargs=cgkw)
+    single.append(c18.flat_vec(r, case).tolist())
+out["single"] = single
+json.dump(out, open(sys.argv[2], "w"))
+"""
+
+
+def run_sharded(ctx, case, seed):
+    """OptimizeVI with devices= (4 forced host devices, n_samples = 2 = n_devices / 2) in a subprocess."""
+    import os
+    import subprocess
+    d = L.scratch(ctx)
+    cf = os.path.join(d, "shard_case_%d.json" % os.getpid())
+    of = os.path.join(d, "shard_out_%d.json" % os.getpid())
+    sf = os.path.join(d, "shard_script_%d.py" % os.getpid())
+    json.dump(case, open(cf, "w"))
+    open(sf, "w").write(SHARD_SCRIPT)
+    env = dict(os.environ, XLA_FLAGS="--xla_force_host_platform_device_count=4", JAX_PLATFORMS="cpu", JAX_ENABLE_X64="1")
+    try:
+        p = subprocess.run(["/venv/bin/python", sf, cf, of, str(seed + 41)], env=env, cwd=ctx.home, timeout=900,
+                           stdout=subprocess.PIPE, stderr=subprocess.STDOUT, text=True)
+        if p.returncode != 0 or not os.path.exists(of):
+            raise RuntimeError("sharded sampling subprocess failed: " + p.stdout[-600:])
+        return json.load(open(of))
+    finally:
+        for f in (cf, of, sf):
+            try:
+                os.remove(f)
+            except OSError:
+                pass
+
+
+def sharded_failure(o):
+    if o["n_devices"] != 4:
+        return None          # devices could not be forced: nothing to judge
+    r0, r1, single = (np.asarray(o[k], dtype=np.float64) for k in ("r0", "r1", "single"))
+    if o["keys_stored"] != o["keys_expected"] or o["keys_after_update"] != o["keys_expected"]:
+        return "sharded sampling: the keys stored with the samples are not the keys the samples were drawn with"
+    if np.abs(r0[0::2] + r0[1::2]).max() > 1e-10:
+        return "sharded sampling: mirrored samples are not negatives of each other"
+    if np.abs(r0[0::2] - single).max() > 1e-8:
+        return "sharded sampling: samples differ from the single-device samples for the same keys by %.3e" % np.abs(r0[0::2] - single).max()
+    if np.abs(r1 - r0).max() > TOL_GEO:
+        return "sharded sampling: nonlinear_update changed the samples of a linear model by %.3e" % np.abs(r1 - r0).max()
+    return None
 
 
 # --------------------------------------------------------------------------------------------------
@@ -598,7 +688,7 @@ class C18(C.Check):
     ]
 
     def __init__(self):
-        self.obs_cf, self.obs_T, self.obs_S, self.obs_A = [], [], [], []
+        self.obs_cf, self.obs_T, self.obs_S, self.obs_A, self.obs_D = [], [], [], [], []
 
     def cases(self, ctx):
         rng = ctx.rng(18)
@@ -734,6 +824,9 @@ class C18(C.Check):
                 if "geo" in o:
                     checks.append("residuals_close %s %s %s" % (TOL_GEO_Q, rows(o["lin"]), rows(o["geo"])))
                     meta.append((api + ".geovi_linear", case))
+                if "geo_weak" in o:
+                    checks.append("residuals_close %s %s %s" % (TOL_GEO_Q, rows(o["lin"]), rows(o["geo_weak"])))
+                    meta.append((api + ".geovi_linear_weak_minimiser", case))
                 if "drv_upd" in o and not case["nonlinear"]:
                     checks.append("residuals_close %s %s %s" % (TOL_GEO_Q, rows(o["drv_lin"]), rows(o["drv_upd"])))
                     meta.append(("re.driver_nonlinear_update", case))
@@ -744,6 +837,27 @@ class C18(C.Check):
                         TOL_GEO_Q, C.cnat(lg.n), qm(lg.R), qm(Qm), qm(lg.Ninv), qv(cc), qv(lg.d), qv(lg.p),
                         fv(o["wf_pos"]), rows(o["wf_res"])))
                     meta.append(("re.wf_linearised_samples", case))
+        # ---- (6) sharded JAX sampling (subprocess with 4 forced host devices) ----
+        self.obs_D = []
+        shard_pool = [c for c in cases if not c["nonlinear"]] or [dict(cases[0], nonlinear=False)]
+        for case in shard_pool[:(1 if ctx.quick else 3)]:
+            scase = dict(case, pe=[], napprox=0)
+            try:
+                o = run_sharded(ctx, scase, ctx.seed)
+                err = None
+            except Exception as e:
+                o, err = None, "%s: %s" % (type(e).__name__, str(e)[:600])
+            self.obs_D.append((scase, o, err))
+            if err:
+                checks.append("false")
+            elif o["n_devices"] != 4:
+                checks.append("true")
+            else:
+                checks.append("residuals_close %s %s %s && residuals_close %s %s %s && %s" % (
+                    TOL_GEO_Q, rows(o["r0"]), rows(o["r1"]),
+                    TOL_T_Q, rows(np.asarray(o["r0"])[0::2]), rows(o["single"]),
+                    C.cbool(o["keys_stored"] == o["keys_expected"])))
+            meta.append(("re.sharded_sampling", scase))
         # ---- (5) Samples re-centring API ----
         self.obs_A = []
         rng_api = ctx.rng(1805)
@@ -857,6 +971,11 @@ class C18(C.Check):
             f = samples_failure(case, api, o)
             if f:
                 fail({"api": api, "fn": "samples"}, "%s: %s" % (api, f), inp)
+        for scase, o, err in self.obs_D:
+            n += 1
+            f = ("raised: " + err) if err else sharded_failure(o)
+            if f:
+                fail({"api": "re", "fn": "sharded_sampling"}, "re: %s" % f, {"kind": "sharded", "case": scase, "seed": ctx.seed})
         for ac, o, err in self.obs_A:
             n += 1
             f = ("raised: " + err.split("\n")[0]) if err else api_failure(ac, o)
@@ -901,6 +1020,14 @@ class C18(C.Check):
                                  for k in range(len(allres) // 2))
             return bool(bad)
         _nifty_quiet()
+        if i["kind"] == "sharded":
+            try:
+                f = sharded_failure(run_sharded(ctx, i["case"], i.get("seed", 0)))
+            except Exception as e:
+                f = "raised %s: %s" % (type(e).__name__, str(e)[:300])
+            if f:
+                print("  " + f)
+            return f is not None
         if i["kind"] == "samples_api":
             try:
                 f = api_failure(i["case"], run_samples_api(i["case"]))
@@ -971,6 +1098,12 @@ def samples_failure(case, api, o):
             return "geoVI update changed the samples of a linear model by %.3e" % err
         if np.any(o["geo"][:, ~mask] != 0):
             return "geoVI update perturbed point-estimated components"
+        if "geo_weak" in o:
+            err = np.abs(o["geo_weak"] - lin).max()
+            if err > TOL_GEO:
+                return "geoVI with a 2-step SteepestDescent sampler changed the samples of a linear model by %.3e" % err
+            if np.abs(o["geo_weak"][0::2] + o["geo_weak"][1::2]).max() > TOL_GEO:
+                return "mirrored geoVI samples (weak sampling minimiser) are not negatives of each other"
     return None
 
 
